@@ -58,6 +58,12 @@ pub struct Config {
     pub w_step: u32,
     #[serde(default)]
     pub bitset_only: bool,
+    #[serde(default = "two")]
+    pub max_kills: u32,
+}
+
+fn two() -> u32 {
+    2
 }
 
 impl Config {
